@@ -585,15 +585,30 @@ def check(prog: Program, rep):
     from rules.c10 import scale_zero_ignored as _szi
     _szi(prog, RuleProxy(rep, "C11.R6"), "C10.R3")
     # the expansion copies the caller's attribute dictionaries as data, not as keyword arguments
-    _ne = prog.own_method("NodeExpandedDiGraph", "__init__")
-    _unp = [c for c in calls_in(_ne.node) if isinstance(c.func, ast.Attribute) and c.func.attr in ("add_node", "add_edge", "add_nodes_from", "add_edges_from") and
-            any(k.arg is None and ("G.nodes[" in norm(k.value) or "G.edges[" in norm(k.value) or norm(k.value) in ("data", "attrs")) for k in c.keywords)]
-    key = "NodeExpandedDiGraph.__init__:attributes-as-data"
-    if _unp:
-        rep.violation("C11.R6", key, f"`{norm(_unp[0])[:80]}` unpacks the caller's attribute dictionary into keyword arguments: an attribute whose name is not a string "
-                      "(nx.set_node_attributes(G, {...}, name=0)) or equals a parameter name of add_node / add_edge (u_of_edge, v_of_edge, node_for_adding) raises TypeError - the "
-                      "node-weighted model of a valid networkx graph cannot be built, while the explicitly expanded instance solves", _ne.loc(_unp[0]), self_contained=True)
-    else:
-        rep.ok("C11.R6", key, "attributes are copied with update()", _ne.loc())
+    # (package-wide: NodeExpandedDiGraph and every helper that builds a graph from the caller's one, e.g. the window subgraphs of MinFlowDecomp)
+    def _attr_dict(v):
+        t = norm(v)
+        if isinstance(v, ast.Name):
+            return t in ("data", "attrs", "attr", "attributes")
+        if isinstance(v, ast.Subscript):
+            return ".nodes[" in t or ".edges[" in t or (isinstance(v.value, ast.Subscript) and isinstance(v.value.value, (ast.Name, ast.Attribute)))
+        return False
+    _seen_ne = False
+    for _f in prog.all_functions():
+        _adds = [c for c in calls_in(_f.node) if isinstance(c.func, ast.Attribute) and c.func.attr in ("add_node", "add_edge", "add_nodes_from", "add_edges_from")]
+        if not _adds:
+            continue
+        _unp = [c for c in _adds if any(k.arg is None and _attr_dict(k.value) for k in c.keywords)]
+        key = f"{_f.qualname}:attributes-as-data"
+        _seen_ne = _seen_ne or _f.qualname == "NodeExpandedDiGraph.__init__"
+        if _unp:
+            rep.violation("C11.R6", key, f"`{norm(_unp[0])[:80]}` unpacks the caller's attribute dictionary into keyword arguments: an attribute whose name is not a string "
+                          "(nx.set_node_attributes(G, {...}, name=0)) or equals a parameter name of add_node / add_edge (u_of_edge, v_of_edge, node_for_adding) raises TypeError - the "
+                          "node-weighted model of a valid networkx graph cannot be built (in node mode every node attribute is also copied onto the expanded edge), while the "
+                          "explicitly expanded instance solves", _f.loc(_unp[0]), self_contained=True)
+        else:
+            rep.ok("C11.R6", key, "no attribute dictionary is unpacked into keyword arguments", _f.loc())
+    if not _seen_ne:
+        raise AnalysisError("NodeExpandedDiGraph.__init__: add_node / add_edge calls not found")
     from rules.c04 import repetition_caps as _rc11
     _rc11(prog, RuleProxy(rep, "C11.R6"), "C04.R5")
